@@ -4,6 +4,7 @@ Pure stdlib + stackscope; Python 3.9 syntax.  The racing leg needs the guarded y
 """
 import sys
 import threading
+import types
 import warnings
 from contextlib import contextmanager
 
@@ -384,6 +385,27 @@ def consistent(ctxs):
 CHAINS = [(1, 2, 3), (1, 10, 20), (10, 20), (1, 2)]
 
 
+def snapshot_consistent(script, details):
+    """the low-level snapshot itself: every value-stack entry is something the scripted frame puts on its value
+    stack (the bound __exit__ of one of its managers, a loop iterator, an empty slot), and the managers form a
+    nesting that is active at one instruction position"""
+    ks = []
+    for obj in details.stack:
+        if obj is None or type(obj).__name__ in ("range_iterator", "list_iterator", "tuple_iterator"):
+            continue
+        if isinstance(obj, types.MethodType) and isinstance(obj.__self__, M) and obj.__func__ is M.__exit__:
+            ks.append(obj.__self__.k)
+            continue
+        return "the snapshot holds an object the frame never had on its value stack: %s" % (repr(obj)[:80],)
+    if script in GEN_CHAINS:
+        chains, norm = GEN_CHAINS[script], tuple(ks)
+    else:
+        chains, norm = CHAINS, tuple(k if k < 10 else (10 if k < 20 else 20) for k in ks)
+    if not any(norm == ch[:len(norm)] for ch in chains):
+        return "the snapshot's managers are not a nesting that is ever active at one instruction: %r" % (ks,)
+    return None
+
+
 def _consistent_for(script, ctxs):
     if script in GEN_CHAINS:
         return consistent_gen(ctxs, GEN_CHAINS[script])
@@ -426,8 +448,7 @@ def one(script, nadv, jstar, k, api, new_thread=False):
                 out = {"ctxs": res}
             elif api == "inspect":
                 try:
-                    stackscope.lowlevel.inspect_frame(frame)
-                    out = {"ctxs": None}
+                    out = {"ctxs": None, "details": stackscope.lowlevel.inspect_frame(frame)}
                 except RuntimeError as ex:
                     out = {"rejected": repr(ex)}
                 except AssertionError as ex:
@@ -460,6 +481,8 @@ def one(script, nadv, jstar, k, api, new_thread=False):
             problem = "Stack.error: %r" % (st.error,)
     elif out.get("ctxs") is not None and not warned:
         problem = _consistent_for(script, out["ctxs"])
+    elif out.get("details") is not None:
+        problem = snapshot_consistent(script, out["details"])
     if "decoy" in extra:
         dg, dt = extra["decoy"]
         dg.go.release()
